@@ -102,9 +102,12 @@ var walkCalls = map[string]bool{"ModifyRequest": true, "ModifyResponse": true, "
 	"ResetRequestVerifications": true, "ResetResponseVerifications": true, "Add": true, "Empty": true, "Errors": true, "Reset": true}
 
 type lockScan struct {
-	recv string
-	out  []lockAcc
-	seen map[string]bool
+	recv  string
+	out   []lockAcc
+	seen  map[string]bool
+	file  *ast.File // helpers: methods of the same receiver type called on the receiver are scanned in place
+	typ   string
+	depth int
 }
 
 func (ls *lockScan) emit(what string, write bool, held map[string]string) {
@@ -178,8 +181,22 @@ func (ls *lockScan) exprs(n ast.Node, held map[string]string) {
 			if _, _, isLock := ls.lockCall(e); isLock {
 				return false
 			}
-			if sel, ok := e.Fun.(*ast.SelectorExpr); ok && walkCalls[sel.Sel.Name] {
-				ls.emit("c:"+sel.Sel.Name, false, held)
+			if sel, ok := e.Fun.(*ast.SelectorExpr); ok {
+				if id, isID := sel.X.(*ast.Ident); isID && id.Name == ls.recv && ls.file != nil && ls.depth < 3 {
+					// a helper method of the receiver: what it does happens with the current mutexes held
+					if h := funcDecl(ls.file, ls.typ, sel.Sel.Name); h != nil && h.Body != nil && len(h.Recv.List[0].Names) == 1 {
+						sub := &lockScan{recv: h.Recv.List[0].Names[0].Name, seen: ls.seen, file: ls.file, typ: ls.typ, depth: ls.depth + 1, out: ls.out}
+						sub.block(h.Body.List, copyHeld(held))
+						ls.out = sub.out
+						for _, a := range e.Args {
+							ls.exprs(a, held)
+						}
+						return false
+					}
+				}
+				if walkCalls[sel.Sel.Name] {
+					ls.emit("c:"+sel.Sel.Name, false, held)
+				}
 			}
 		case *ast.SelectorExpr:
 			if id, ok := e.X.(*ast.Ident); ok && id.Name == ls.recv {
@@ -262,11 +279,11 @@ func (ls *lockScan) stmt(st ast.Stmt, held map[string]string) {
 	}
 }
 
-func lockAccesses(fd *ast.FuncDecl) []lockAcc {
+func lockAccesses(f *ast.File, typ string, fd *ast.FuncDecl) []lockAcc {
 	if fd == nil || fd.Body == nil || fd.Recv == nil || len(fd.Recv.List) != 1 || len(fd.Recv.List[0].Names) != 1 {
 		return nil
 	}
-	ls := &lockScan{recv: fd.Recv.List[0].Names[0].Name, seen: map[string]bool{}}
+	ls := &lockScan{recv: fd.Recv.List[0].Names[0].Name, seen: map[string]bool{}, file: f, typ: typ}
 	ls.block(fd.Body.List, map[string]string{})
 	return ls.out
 }
@@ -301,19 +318,53 @@ func extractC13() {
 
 	mf := parse("multierror.go")
 	add := funcDecl(mf, "MultiError", "Add")
+	// Add unwraps: inside `if x, ok := err.(*MultiError); ok { … }` the elements of x (x.Errors() or x.errs,
+	// directly or through a local) are appended one by one (append with an ellipsis) and the body
+	// returns before the plain append of err itself.
 	flattens := false
 	if add != nil {
-		asserts := false
 		ast.Inspect(add.Body, func(n ast.Node) bool {
-			if ta, ok := n.(*ast.TypeAssertExpr); ok && ta.Type != nil && src(ta.Type) == "*MultiError" {
-				asserts = true
+			is, ok := n.(*ast.IfStmt)
+			if !ok || is.Init == nil {
+				return true
 			}
-			if c, ok := n.(*ast.CallExpr); ok && src(c.Fun) == "append" && c.Ellipsis.IsValid() && len(c.Args) == 2 && strings.HasSuffix(src(c.Args[1]), ".Errors()") {
+			as, ok := is.Init.(*ast.AssignStmt)
+			if !ok || len(as.Lhs) != 2 || len(as.Rhs) != 1 {
+				return true
+			}
+			ta, ok := as.Rhs[0].(*ast.TypeAssertExpr)
+			if !ok || ta.Type == nil || src(ta.Type) != "*MultiError" {
+				return true
+			}
+			x := src(as.Lhs[0])
+			spread, elems, returns := false, false, false
+			ast.Inspect(is.Body, func(m ast.Node) bool {
+				switch e := m.(type) {
+				case *ast.CallExpr:
+					if src(e.Fun) == "append" && e.Ellipsis.IsValid() {
+						spread = true
+					}
+					if src(e.Fun) == x+".Errors" {
+						elems = true
+					}
+				case *ast.SelectorExpr:
+					if src(e) == x+".errs" {
+						elems = true
+					}
+				case *ast.RangeStmt:
+					if strings.HasPrefix(src(e.X), x+".") {
+						spread = true
+					}
+				case *ast.ReturnStmt:
+					returns = true
+				}
+				return true
+			})
+			if spread && elems && returns {
 				flattens = true
 			}
 			return true
 		})
-		flattens = flattens && asserts
 	}
 	g.def("multiErrorAddFlattens", "Bool", leanBool(flattens))
 
@@ -358,13 +409,13 @@ func extractC13() {
 	} {
 		f := parse(t.file)
 		for _, m := range t.methods {
-			lf = append(lf, fmt.Sprintf("(%s, %s)", leanStr(t.key+"."+m), leanAccs(lockAccesses(funcDecl(f, t.typ, m)))))
+			lf = append(lf, fmt.Sprintf("(%s, %s)", leanStr(t.key+"."+m), leanAccs(lockAccesses(f, t.typ, funcDecl(f, t.typ, m)))))
 		}
 	}
 	var mlf []string
 	for _, d := range mf.Decls {
 		if fd, ok := d.(*ast.FuncDecl); ok && fd.Recv != nil && funcDecl(mf, "MultiError", fd.Name.Name) == fd {
-			mlf = append(mlf, fmt.Sprintf("(%s, %s)", leanStr(fd.Name.Name), leanAccs(lockAccesses(fd))))
+			mlf = append(mlf, fmt.Sprintf("(%s, %s)", leanStr(fd.Name.Name), leanAccs(lockAccesses(mf, "MultiError", fd))))
 		}
 	}
 	// entry = (name, isCall, isWrite, [(mutex, heldForWriting)])
